@@ -38,6 +38,24 @@ pub fn apply_fault(sys: &mut Sys, op: &Op) -> R<Option<usize>> {
             drop_world(sys, w as usize, k as u32)?;
             Ok(Some(w as usize))
         }
+        Op::FaultCreateInto { w, a, via, within } => {
+            let w = w as usize;
+            let d0 = sys.dumps(w);
+            let world = sys.worlds[w].as_mut().unwrap();
+            let r = catch_unwind(AssertUnwindSafe(|| with_arch!(a as usize, A => <A as Arch>::create_bomb(world, via, within))));
+            match r {
+                Ok(()) => return vio!("C10", "fault-point-not-reached", "create with a value whose Into<Components> panics returned normally"),
+                Err(p) => {
+                    let msg = panic_msg(&p);
+                    ensure!(msg.contains(FAULT_MSG_INTO), "C10", "other-panic-during-create", "create panicked with '{}' instead of the conversion's panic", msg);
+                }
+            }
+            sys.c.faults_fired += 1;
+            // nothing was created: the world must be exactly what it was
+            let d1 = sys.dumps(w);
+            ensure!(d0 == d1, "C10", "create-panic-mutated-world", "a panic in the Into<Components> conversion of create ({:?}, within_capacity = {}) changed the archetype: before {:?} after {:?}", via, within, d0[a as usize], d1[a as usize]);
+            Ok(Some(w))
+        }
         _ => unreachable!(),
     }
 }
